@@ -1,5 +1,5 @@
 CONSTANTS MaxPkgs = 4 NameIdx = {1, 2, 3, 4, 5, 6, 7, 8, 9, 10, 11, 12} Palette = 4 MaxMods = 2 TestDirs = TRUE NBases = 3 NSchemes = 2
           Entries = {"version", "path", "none"} Places = {"packages", "sibling", "nested"} Sim = TRUE
 SPECIFICATION Spec
-INVARIANTS TypeOK RootsDistinct ExternalIsPlace RootOfIsInnermost ModuleNameInjective ResolveIsFunction ResolveIsVisible ImportsAcyclic DepsShape
+INVARIANTS TypeOK RootsDistinct ExternalIsPlace RootOfIsInnermost ModuleNameInjective ResolveIsFunction ResolveIsVisible DropIsLocal ImportsAcyclic DepsShape
 CHECK_DEADLOCK FALSE
